@@ -255,7 +255,8 @@ class Verifier:
             if c.concretize:
                 return c.concretize(self.ex, s, m, values)
             return {k: to_native(self.ex, s, m, v) for k, v in values.items()}
-        except Exception:  # noqa
+        except Exception as e:  # noqa
+            o.replay_msg = f"could not build native arguments: {type(e).__name__}: {e}"
             return None
 
 
